@@ -917,6 +917,20 @@ def fixed_cases():
             ["set_max_time", [], 3],
             ["set_dist_params", [], [], {("contra_early_a" if kind == "bi" else "noext_contra_early_a"): 1.75}],
         ]})
+    # two parametric T-stages with the SAME keyword name: a T-stage-prefixed keyword reaches that T-stage only, a bare
+    # keyword both, positional values are consumed T-stage by T-stage (keyword beats positional without shifting)
+    for kind in ("uni", "bi"):
+        out.append({"kind": kind, "max_time": 3, "ops": [
+            ["set_dist", [], "early", {"fam": 0}],
+            ["set_dist", [], "late", {"fam": 0}],
+            ["set_dist_params", [], [0.25, 0.75], {}],
+            ["set_dist_params", [], [], {"early_p": 0.125}],
+            ["set_dist_params", [], [], {"p": 0.5, "early_p": 0.375}],
+            ["set_dist_params", [], [0.625, 0.875, 0.0625], {"early_p": 0.9375}],
+            ["set_dist_params", [], [], {"late_p": 0.0}],
+            ["set_max_time", [], 2],
+            ["set_dist_params", [], [], {"early_p": 1.0}],
+        ]})
     return out
 
 
